@@ -282,6 +282,8 @@ func checkC08(w *World, r *Report) {
 	c08Base85(w, r)
 	c08WrittenLen(w, r)
 	c08LengthAlgebra(w, r)
+	r.Rule("R08.12", "package-level codec tables are complete before any use (built by a package initialiser, or under sync.Once with every read after the Do): codecs run on many goroutines", 1)
+	c08TablesCompleteBeforeUse(w, r)
 	r.Rule("R08.11", "Encode and Decode never write into their argument", 14)
 	c08CodecsLeaveTheirInputAlone(w, r)
 	r.Rule("R08.10", "no codec takes a single Read of a stream decoder for the whole input", 1)
